@@ -525,3 +525,21 @@ Example C19_json_indent_read_back :
   read_all (json_reader_raw toy_dec) keep_raw (ex_i1 ++ nl ++ ex_i2) =
     FR false [(VMap (toy_of ex_m1), ex_t1); (VMap (toy_of ex_m2), ex_t2)] false.
 Proof. exact ex_indent_read_back. Qed.
+
+(* ---- tie to the CURRENT source of getJson (json.go), the scanner every JSON file reader runs: go2v translates the
+   function statement by statement on every run (Gen/Pure_gen.v: fn_getJson); GenProofs/PureG6.v proves it equal to
+   the schedule-driven scanner of Model/Reader.v, which Proofs/C19Reads.v proves equal, over an *os.File, to the
+   byte-string scanner [scan_json] the file theorems above are stated with.  So what the translated getJson returns
+   on the unread bytes b of a file, and what it leaves unread, is what [scan_json b] says. *)
+From Mxj Require Import Gen.Setters_gen Gen.PureSupport Gen.Pure_gen GenProofs.PureG6.
+
+Theorem C19_get_json_code_is_file_scanner : forall st b,
+  fn_getJson st (file_schedule b) =
+    gj_result (Some (jres (scan_json b), file_schedule (unread (scan_json b)))).
+Proof. intros st b. rewrite get_json_code_is_model, scan_models_agree. reflexivity. Qed.
+Print Assumptions C19_get_json_code_is_file_scanner.
+
+Example C19_get_json_code_nonvacuous :
+  fn_getJson gstate0 (file_schedule (s "{""a"":""x\\""}{""b"":""y""}")) =
+    Ret ((s "{""a"":""x\\""}", None), file_schedule (s "{""b"":""y""}")).
+Proof. vm_compute. reflexivity. Qed.
